@@ -51,7 +51,8 @@ func (s *Service) SignedBeaconBlock(ctx context.Context,
 	// We create a cancelable context with a timeout.  When a provider responds we cancel the context to cancel the other requests.
 	ctx, cancel := context.WithTimeout(ctx, s.timeout)
 
-	respCh := make(chan *signedBeaconBlockResp, 1)
+	// Room for every provider's response, so that no provider is left blocked once we have returned.
+	respCh := make(chan *signedBeaconBlockResp, len(s.signedBeaconBlockProviders))
 	for name, provider := range s.signedBeaconBlockProviders {
 		go func(ctx context.Context,
 			name string,
